@@ -52,7 +52,14 @@ def plan(tier, seed):
 
 
 def od_factory():
-    return gen.typed_od(rpdos=(), tpdos=())
+    od = gen.typed_od(rpdos=(), tpdos=())
+    # configured values (EDS DefaultValue / DCF ParameterValue) exist for the strings and blobs: a written value,
+    # however short, replaces them
+    for dt, (default, value) in {R.VISIBLE_STRING: ("default text", None), R.UNICODE_STRING: (None, "configured"),
+                                 R.OCTET_STRING: (b"\x01\x02\x03", None), R.DOMAIN: (b"default blob", b"configured blob")}.items():
+        for var in (od[gen.TYPE_INDEX_BASE + dt], od[0x2100][member_sub(dt)]):
+            var.default, var.value = default, value
+    return od
 
 
 def keys_for(dt):
@@ -150,7 +157,7 @@ def values_inline(rng, dt, desc):
 def run_shared_od(ctx, desc):
     """Several local nodes built from the same ObjectDictionary object (a common way to set up identical devices)."""
     from canopen.sdo.exceptions import SdoAbortedError
-    shared_local, shared_remote = od_factory(), od_factory()
+    shared_local, shared_remote = gen.typed_od(rpdos=(), tpdos=()), gen.typed_od(rpdos=(), tpdos=())     # no configured values here
     factories = iter([shared_remote, shared_local] * 3)
     rig = rigs.PairRig(lambda: next(factories), node_ids=(3, 4, 6))
     rng = random.Random(repr(("c03s", desc["cs"])))
